@@ -101,6 +101,11 @@ fn run_case(line: &str) -> String {
 }
 
 fn main() {
+    let args: Vec<String> = std::env::args().collect();
+    if args.len() == 4 && args[1] == "--child-deep" {
+        c_amf0::child_deep(args[2].parse().unwrap(), args[3].parse().unwrap());
+        return;
+    }
     // panics are observations, not noise
     panic::set_hook(Box::new(|_| {}));
     let stdin = io::stdin();
